@@ -314,6 +314,27 @@ func genC09(t *rapid.T) c09Case {
 	if rapid.IntRange(0, 39).Draw(t, "many") == 0 { // more malformed lines than any plausible cap on reported errors
 		kl = rapid.IntRange(1001, 1300).Draw(t, "klmany")
 	}
+	// well-formed entries with names of any shape the format allows (inner tabs, quotes, colons, digits ...): they are
+	// not malformed, wherever the value separator is looked for
+	for di, d := range []*vDoc{&s.Book, &s.Log} {
+		if len(d.Recs) == 0 || rapid.IntRange(0, 2).Draw(t, fmt.Sprintf("wild%d", di)) != 0 {
+			continue
+		}
+		for k := rapid.IntRange(1, 2).Draw(t, fmt.Sprintf("nwild%d", di)); k > 0; k-- {
+			r := &d.Recs[rapid.IntRange(0, len(d.Recs)-1).Draw(t, fmt.Sprintf("wildrec%d", di))]
+			at := rapid.IntRange(0, len(r.Lines)).Draw(t, fmt.Sprintf("wildat%d", di))
+			ln := vLine{Kind: vkEntry, Name: "w~" + vGenName(t, true, fmt.Sprintf("wildname%d", di)), Num: vGenNumDecimal(t, fmt.Sprintf("wildnum%d", di)), L: vGenEntryLayout(t, lo, fmt.Sprintf("wildl%d", di))}
+			r.Lines = append(r.Lines[:at], append([]vLine{ln}, r.Lines[at:]...)...)
+		}
+		d.NoFinalNL = false
+	}
+	if rapid.IntRange(0, 4).Draw(t, "hashhead") == 0 {
+		// the book begins with a recipe whose name begins with the comment character (written quoted, the only way)
+		plain := vLayout{Indent: "  ", Sep: ": ", EOL: "\n"}
+		first := vRec{Head: "#" + []string{"1 breakfast", "lunch", "#", " x"}[rapid.IntRange(0, 3).Draw(t, "hashname")], HL: vLayout{Quote: true, EOL: "\n"},
+			Lines: []vLine{{Kind: vkEntry, Name: "x", Num: "1", L: plain}, {Kind: vkEntry, Name: "y", Num: "2", L: plain}}}
+		s.Book.Recs = append([]vRec{first}, s.Book.Recs...)
+	}
 	c09Plant(t, &s.Book, kb, names, "pb")
 	c09Plant(t, &s.Log, kl, names, "pl")
 	// one file in eight that holds malformed lines ends in a comment line longer than the line buffer (the read fails
